@@ -192,7 +192,17 @@ static void apply(void *vs, int op)
     case K_NEW_NUM: { char b[40]; snprintf(b, sizeof b, "%ld", NUMS[o->a]); s->o = F(new_from_num)(NUMS[o->a]); model_set(s, b, (int) strlen(b)); if (!s->o) FAIL(CLS "_new_from_num", "model:return", shape, "NULL"); check_r = 0; break; }
     case K_APP_OBJ: case K_PRE_OBJ: {
         T other = mk_other(o->t);
+        /* the same call on a copy of the receiver with an argument that holds the same text in a buffer with spare capacity: the same result */
+        T twin = F(dup)(self), other2 = NULL;
+        if (o->t) { size_t tl2 = strlen(o->t); char *pad = calloc(1, tl2 + 9); memcpy(pad, o->t, tl2); other2 = F(new_from_buff)((spif_charptr_t) pad, (spif_stridx_t) (tl2 + 9)); free(pad); }
+        if (twin && other2) { if (o->k == K_APP_OBJ) F(append)(twin, other2); else F(prepend)(twin, other2); }
         r = o->k == K_APP_OBJ ? F(append)(self, other) : F(prepend)(self, other);
+        if (twin && other2) {
+            const char *a1 = self->s ? (char *) self->s : "", *a2 = twin->s ? (char *) twin->s : "";
+            if (twin->len != self->len || (twin->s && (size_t) twin->len != strlen(a2)) || strcmp(a1, a2)) FAIL(o->k == K_APP_OBJ ? CLS "_append" : CLS "_prepend", "model:argument-capacity", shape, "with an argument that has spare capacity the result has len=%ld (text length %zu), with an exactly sized argument len=%ld", (long) twin->len, strlen(a2), (long) self->len);
+            if (twin->s && twin->size <= twin->len) FAIL(o->k == K_APP_OBJ ? CLS "_append" : CLS "_prepend", "invariant:size-not-above-len", shape, "size=%ld len=%ld after an argument with spare capacity", (long) twin->size, (long) twin->len);
+        }
+        if (twin) F(del)(twin); if (other2) F(del)(other2);
         if (other && other->s) memset(other->s, '!', (size_t) other->len);       /* the caller's object must not be aliased */
         F(del)(other);
         if (o->t) { char tmp[LMAX * 2 + 2]; int tl = (int) strlen(o->t);
@@ -782,6 +792,53 @@ static void sp_case(uint64_t idx, void *ctx)
     if (n) mc_nontrivial();
 }
 
+/* ------------------------------------------------------------------ find: every text and needle over two letters, so that needles overlap themselves */
+#define FO_HMAX 8
+#define FO_NMAX 4
+static void fo_decode(uint64_t idx, char *h, int *hl) { int l = 0; uint64_t base = 0; while (idx >= base + (1ull << l)) { base += 1ull << l; l++; } uint64_t v = idx - base; for (int i = 0; i < l; i++) h[i] = (v >> i & 1) ? 'B' : 'a'; h[l] = 0; *hl = l; }
+static void fo_desc(uint64_t idx, void *ctx, char *b, size_t n) { char h[FO_HMAX + 1]; int hl; (void) ctx; fo_decode(idx, h, &hl); snprintf(b, n, CLS " find / find_from_ptr in \"%s\" of every needle of 1..%d letters over {a,B}", h, FO_NMAX); }
+static void fo_case(uint64_t idx, void *ctx)
+{
+    char h[FO_HMAX + 1], nd[FO_NMAX + 1]; int hl, nl; (void) ctx; fo_decode(idx, h, &hl);
+    char *hh = mc_heapstr(h); T o = F(new_from_ptr)((spif_charptr_t) hh); free(hh); if (!o) return;
+    uint64_t oc = 0;
+    for (uint64_t j = 1; j < (2ull << FO_NMAX) - 1; j++) {
+        fo_decode(j, nd, &nl);
+        const char *p = strstr(h, nd); long ex = p ? p - h : hl;
+        const char *sh = nl > hl ? "needle longer than text" : (p ? "needle present" : "needle absent"); mc_set_shape(sh);
+        char *hn = mc_heapstr(nd);
+        long g1 = (long) F(find_from_ptr)(o, (spif_charptr_t) hn); T on = F(new_from_ptr)((spif_charptr_t) hn); long g2 = on ? (long) F(find)(o, on) : ex; if (on) F(del)(on); free(hn);
+        if (g1 != ex) FAIL(CLS "_find_from_ptr", "model:return", sh, "find_from_ptr(\"%s\") in \"%s\" = %ld expected %ld", nd, h, g1, ex);
+        if (g2 != ex) FAIL(CLS "_find", "model:return", sh, "find(\"%s\") in \"%s\" = %ld expected %ld", nd, h, g2, ex);
+        oc = oc * 31 + (uint64_t) ex;
+    }
+    F(del)(o);
+    mc_nontrivial();
+    mc_outcome(oc);
+}
+/* ------------------------------------------------------------------ texts whose lengths are 2^31 and more apart */
+static const long long HUGE_DIFF[] = { 2147483647LL, 2147483648LL, 2147483649LL, 4294967296LL, 4294967297LL };
+static void hs_desc(uint64_t idx, void *ctx, char *b, size_t n) { (void) ctx; snprintf(b, n, CLS " cmp/comp/casecmp/cmp_with_ptr of \"a\" with a text of 1 + %lld letters a, both directions", HUGE_DIFF[idx]); }
+static void hs_case(uint64_t idx, void *ctx)
+{
+    long long bigl = HUGE_DIFF[idx] + 1; (void) ctx; const char *shape = "equal prefix, lengths 2^31 or more apart"; mc_set_shape(shape);
+    T a = F(new_from_ptr)((spif_charptr_t) "a"), b = F(new)();
+    char *blk = malloc((size_t) bigl + 1);
+    if (!blk) { F(del)(a); F(del)(b); return; }
+    memset(blk, 'a', (size_t) bigl); blk[bigl] = 0;
+    b->s = (spif_charptr_t) blk; b->len = (spif_stridx_t) bigl; b->size = (spif_stridx_t) bigl + 1;          /* the object takes the block over (del frees it) */
+    int ab = cmpv(F(cmp)(a, b)), ba = cmpv(F(cmp)(b, a));
+    if (ab != -1 || ba != 1) FAIL(CLS "_cmp", "model:return", shape, "cmp(short,long)=%d cmp(long,short)=%d", ab, ba);
+    ab = cmpv(F(comp)(a, b)); ba = cmpv(F(comp)(b, a));
+    if (ab != -1 || ba != 1) FAIL(CLS "_comp", "model:return", shape, "comp(short,long)=%d comp(long,short)=%d", ab, ba);
+    ab = cmpv(F(casecmp)(a, b)); ba = cmpv(F(casecmp)(b, a));
+    if (ab != -1 || ba != 1) FAIL(CLS "_casecmp", "model:return", shape, "casecmp(short,long)=%d casecmp(long,short)=%d", ab, ba);
+    ab = cmpv(F(cmp_with_ptr)(a, (spif_charptr_t) blk)); ba = cmpv(F(cmp_with_ptr)(b, (spif_charptr_t) "a"));
+    if (ab != -1 || ba != 1) FAIL(CLS "_cmp_with_ptr", "model:return", shape, "cmp_with_ptr(short,long)=%d cmp_with_ptr(long,short)=%d", ab, ba);
+    F(del)(a); F(del)(b);
+    mc_nontrivial();
+    mc_outcome(idx);
+}
 int main(int argc, char **argv)
 {
 #ifdef VERIF_LEAKRUN
@@ -790,6 +847,7 @@ int main(int argc, char **argv)
     mc_init("C01", argc, argv);
 #endif
     libast_debug_level = (unsigned) mc_dlevel();        /* --dlevel=N: the whole run at runtime debug level N (default 0) */
+    if (mc_arg("only", NULL) && !strcmp(mc_arg("only", ""), "huge")) { mc_e2_level(CLS "_huge_length_difference", 1, 5, hs_case, hs_desc, NULL); return mc_finish(); }
     L = (int) mc_arg_int("L", mc_thorough() ? 5 : 3);
     NS = (int) mc_arg_int("sigma", mc_thorough() ? 4 : 3);
     memcpy(SIG, "aB 7", 4); SIG[NS] = 0;
@@ -808,6 +866,7 @@ int main(int argc, char **argv)
         mc_e2_level(CLS "_stream_ctor", g_k * 10 + g_dev, (uint64_t) NSRC * 6 * NLENS, sc_case, sc_desc, NULL);
     if (!mc_arg("only", NULL)) mc_e2_level(CLS "_extreme_index", 64, (uint64_t) NEXT * NEXT, ex_case, ex_desc, NULL);
     if (!mc_arg("only", NULL)) { mc_e2_level(CLS "_comparison_table", NCW, (uint64_t) NCW * NCW, cw_case, cw_desc, NULL); mc_e2_level(CLS "_number_texts", NNT, (uint64_t) NNT, nt_case, nt_desc, NULL); }
+    if (!mc_arg("only", NULL)) mc_e2_level(CLS "_find_two_letters", FO_HMAX, (2ull << FO_HMAX) - 1, fo_case, fo_desc, NULL);
     if (!mc_arg("only", NULL)) mc_e2_level(CLS "_long_text", 65537, (uint64_t) NLT * NLO, lt_case, lt_desc, NULL);
     if (!mc_arg("only", NULL)) { mc_e2_level(CLS "_stream_history", 1, 30, sh_case, sh_desc, NULL); mc_e2_level(CLS "_fd_hard_error", 1, NHE, he_case, he_desc, NULL); }
     if (!mc_arg("only", NULL)) { int maxn = (int) mc_arg_int("spmax", mc_thorough() ? 9000 : 4200); mc_e2_level(CLS "_sprintf_len", maxn, (uint64_t) (maxn + 1) * 3, sp_case, sp_desc, NULL); }
